@@ -97,6 +97,20 @@ def envelopeSpec (s : Option EnvStrategy) (cutoff : Option α) (xs : List α) : 
   | .squared => onePoleFrom (ofInt 1 - R) R (ofInt 0) (xs.map fun x => x * x)
   | .rms => (onePoleFrom (ofInt 1 - R) R (ofInt 0) (xs.map fun x => x * x)).map sqrt
 
+/-- the one-pole recursion with a pole per sample: `y[n] = (1−R[n])·u[n] + R[n]·y[n−1]`; as long as
+    both lists last -/
+def onePoleVarFrom : α → List α → List α → List α
+  | prev, r :: rs, u :: us =>
+    ((ofInt 1 - r) * u + r * prev) :: onePoleVarFrom ((ofInt 1 - r) * u + r * prev) rs us
+  | _, _, _ => []
+
+/-- **envelope with a time-varying cutoff** `c[n]`: the pole follows the cutoff sample by sample -/
+def envelopeVarSpec (s : Option EnvStrategy) (cs xs : List α) : List α :=
+  match s.getD EnvStrategy.rms with
+  | .abs => onePoleVarFrom (ofInt 0) (cs.map poleRadius) (xs.map abs)
+  | .squared => onePoleVarFrom (ofInt 0) (cs.map poleRadius) (xs.map fun x => x * x)
+  | .rms => (onePoleVarFrom (ofInt 0) (cs.map poleRadius) (xs.map fun x => x * x)).map sqrt
+
 end envelope
 
 /-! ### clip: `min(high, max(low, x))`, a limit that is `none` does not apply -/
@@ -230,6 +244,7 @@ end R
 namespace F
 def envelopeSpec (s : Option EnvStrategy) (cutoff : Option Float) (xs : List Float) :=
   C20.envelopeSpec s cutoff xs
+def envelopeVarSpec (s : Option EnvStrategy) (cs xs : List Float) := C20.envelopeVarSpec s cs xs
 end F
 
 end ALV.C20
